@@ -11,10 +11,14 @@ package centrifuge
 //   * a recording DictionaryCompression engine whose DictionaryConnection marks encoded frames
 //     with a leading 'Z', logs `enc+`/`enc-`/`close`, and can park inside Encode on a gate.
 // Op line:
-//   race dict=0|1 rwq=0|1 gate=0|1 actor=none|publish|subscribe|unsubscribe|disconnect|publish2 post=none|publish|rpc encgate=0|1 closer=none|disconnect|clientclose
+//   race dict=0|1 rwq=0|1 jl=0|1 ncgate=0|1 gate=0|1 actor=none|publish|subscribe|unsubscribe|disconnect|publish2 post=none|publish|rpc encgate=0|1 closer=none|disconnect|clientclose
 //     gate=1   : connect carries the server-side subscription "g"; `actor` runs while the connect is
 //                parked in Broker.Subscribe("g"); then the gate is released.
 //     gate=0   : `actor` runs after the connect reply was received (control).
+//     jl=1     : the connect-time server-side subscription "a" emits and pushes join/leave (the client's
+//                own join push must follow the connect reply).
+//     ncgate=1 : NewDictionaryConnection parks; the stale-connection timer is fired by hand, close() completes, then
+//                the negotiation continues (the encoder installed afterwards must still be closed).
 //     post     : after the connect reply: a publication into "g" / an RPC (answered from another
 //                goroutine); with encgate=1 the first Encode parks until `closer` has run
 //                (node.Disconnect or the client closing the socket), then is released.
@@ -56,6 +60,27 @@ func (b *verifC11Broker) Subscribe(chs ...string) error {
 	return b.MemoryBroker.Subscribe(chs...)
 }
 
+// hand-fired ClientTimerScheduler (used to let the stale-connection timer expire at a chosen moment)
+type verifC11Timer struct {
+	cb       func()
+	canceled bool
+}
+
+func (t *verifC11Timer) Cancel() { t.canceled = true }
+
+type verifC11Sched struct {
+	mu     sync.Mutex
+	timers []*verifC11Timer
+}
+
+func (ts *verifC11Sched) ScheduleTimer(d time.Duration, cb func()) TimerCanceler {
+	ts.mu.Lock()
+	defer ts.mu.Unlock()
+	t := &verifC11Timer{cb: cb}
+	ts.timers = append(ts.timers, t)
+	return t
+}
+
 type verifC11Engine struct {
 	mu      sync.Mutex
 	log     []string
@@ -64,6 +89,10 @@ type verifC11Engine struct {
 	release chan struct{}
 	closeSig chan struct{}
 	conns   int
+	// ncGate parks NewDictionaryConnection (the dictionary negotiation inside connectCmd)
+	ncGate    bool
+	ncArrived chan struct{}
+	ncRelease chan struct{}
 }
 
 func (e *verifC11Engine) ev(x string) {
@@ -77,6 +106,10 @@ func (e *verifC11Engine) NewDictionaryConnection(p DictionaryConnectionParams) D
 	e.conns++
 	e.mu.Unlock()
 	e.ev("new")
+	if e.ncGate {
+		e.ncArrived <- struct{}{}
+		<-e.ncRelease
+	}
 	return &verifC11Conn{e: e}
 }
 
@@ -130,6 +163,10 @@ func verifC11Classify(line []byte, enc bool) string {
 		switch {
 		case p.Pub != nil:
 			return pre + "pub:" + p.Channel
+		case p.Join != nil:
+			return pre + "join:" + p.Channel
+		case p.Leave != nil:
+			return pre + "leave:" + p.Channel
 		case p.Subscribe != nil:
 			return pre + "sub:" + p.Channel
 		case p.Unsubscribe != nil:
@@ -157,10 +194,15 @@ const verifC11Budget = 5 * time.Second
 func verifC11Race(kv map[string]string) string {
 	notes := []string{}
 	note := func(x string) { notes = append(notes, x) }
-	engine := &verifC11Engine{arrived: make(chan struct{}, 4), release: make(chan struct{}, 4), closeSig: make(chan struct{}, 8)}
+	engine := &verifC11Engine{arrived: make(chan struct{}, 4), release: make(chan struct{}, 4), closeSig: make(chan struct{}, 8),
+		ncGate: kv["ncgate"] == "1", ncArrived: make(chan struct{}, 2), ncRelease: make(chan struct{}, 2)}
 	cfg := Config{LogLevel: LogLevelNone}
 	if kv["dict"] == "1" {
 		cfg.DictionaryCompression = engine
+	}
+	tsched := &verifC11Sched{}
+	if kv["ncgate"] == "1" {
+		cfg.ClientTimerScheduler = tsched
 	}
 	node, err := New(cfg)
 	if err != nil {
@@ -174,9 +216,13 @@ func verifC11Race(kv map[string]string) string {
 		release: make(chan struct{}, 4)}
 	node.SetBroker(broker)
 	gateSub := kv["gate"] == "1"
+	trCh := make(chan *websocketTransport, 2)
 	node.OnConnecting(func(ctx context.Context, e ConnectEvent) (ConnectReply, error) {
 		rep := ConnectReply{Credentials: &Credentials{UserID: "u"}, ReplyWithoutQueue: kv["rwq"] == "1"}
-		subs := map[string]SubscribeOptions{"a": {}}
+		if wt, ok := e.Transport.(*websocketTransport); ok {
+			trCh <- wt
+		}
+		subs := map[string]SubscribeOptions{"a": {EmitJoinLeave: kv["jl"] == "1", PushJoinLeave: kv["jl"] == "1"}}
 		if gateSub {
 			subs["g"] = SubscribeOptions{}
 		}
@@ -280,6 +326,49 @@ func verifC11Race(kv map[string]string) string {
 	}
 	cmd(&protocol.Command{Id: 1, Connect: &protocol.ConnectRequest{Flag: ConnectionFlagDictionaryCompression}})
 	actor := kv["actor"]
+	if kv["ncgate"] == "1" && kv["dict"] == "1" {
+		// close() runs to completion while connectCmd is inside the dictionary negotiation: the
+		// encoder that connectCmd installs afterwards must still be closed (exactly once)
+		select {
+		case <-engine.ncArrived:
+		case <-time.After(verifC11Budget):
+			return "HARNESS-TIMEOUT connect never reached NewDictionaryConnection"
+		}
+		var wt *websocketTransport
+		select {
+		case wt = <-trCh:
+		default:
+		}
+		// the stale-connection timer expires now (the read loop goroutine is the one parked in the
+		// negotiation, so nothing else can close this not yet registered client): closeStale → close()
+		tsched.mu.Lock()
+		var stale *verifC11Timer
+		if len(tsched.timers) > 0 {
+			stale = tsched.timers[0]
+		}
+		tsched.mu.Unlock()
+		if stale == nil {
+			return "HARNESS-TIMEOUT no stale timer scheduled"
+		}
+		stale.cb()
+		if wt != nil {
+			select {
+			case <-wt.closeCh: // Transport.Close is the last transport step of close()
+			case <-time.After(verifC11Budget):
+				note("close-not-observed")
+			}
+		}
+		engine.ncRelease <- struct{}{}
+		select {
+		case <-engine.closeSig:
+		case <-time.After(2 * time.Second):
+			note("encoder-never-closed")
+		}
+		engine.mu.Lock()
+		el := strings.Join(engine.log, ",")
+		engine.mu.Unlock()
+		return fmt.Sprintf("frames=- enc=%s notes=%s", el, strings.Join(append(notes, "ncgate"), ","))
+	}
 	if gateSub {
 		select {
 		case <-broker.arrived:
